@@ -225,7 +225,14 @@ def r16d(run, C):
     f = run.repo.func("utype.utils.base", "TypeRegistry.resolve")
     fa = analysis(f)
     t = f.params[1] if len(f.params) > 1 else "t"
-    loops = [n for n in fa.cfg.nodes if n.kind == "iter" and unparse(n.ast) == "self._registry"]
+    def _is_registry(n):
+        if unparse(n.ast) == "self._registry":
+            return True
+        if isinstance(n.ast, ast.Name) and n.ast.id in fa.rd.locals:
+            os_ = prov(fa).of_name(n, n.ast.id)
+            return bool(os_) and all(o.kind == "attr" and o.text == "self._registry" for o in os_)
+        return False
+    loops = [n for n in fa.cfg.nodes if n.kind == "iter" and _is_registry(n)]
     run.check("R16d", f, "resolve scans self._registry in list order", len(loops) == 1,
               construct="resolve does not scan the registry in order",
               message="TypeRegistry.resolve has no `for ... in self._registry` scan (or iterates a reordered copy)",
